@@ -83,6 +83,22 @@ def keyI (cl : List Nat → List (List Nat)) (tf : TextFieldCl.TF Nat) (ev : Tex
   (EdRun.tfHandleKey EdGen.genTf cl tf ev).map fun (t, log) =>
     (t, log.map fun (k, v) => if k = "submit" then TextFieldCl.Call.submit v else TextFieldCl.Call.change v)
 
+/-- textinput's `Update` / `SetContent` through the translated bodies, over merging graphemes … -/
+def tiUpdI (cl : List Nat → List (List Nat)) (isW : List Nat → Bool) (m : TextInputCl.TIC Nat) (ev : TextInputCl.Ev Nat) :
+    Option (TextInputCl.TIC Nat) := EdRun.tiUpdate EdGen.genTi cl isW m ev
+def tiSetI (cl : List Nat → List (List Nat)) (isW : List Nat → Bool) (m : TextInputCl.TIC Nat) (t : List Nat) :
+    Option (TextInputCl.TIC Nat) := EdRun.tiSetContent EdGen.genTi cl isW m t
+
+/-- … and over graphemes that never merge (kind `ti`: one atom per grapheme). -/
+def tiToCl (m : TextInput.TI Nat) : TextInputCl.TIC Nat := ⟨m.content.map ([·]), m.cursor, m.offset, m.paste⟩
+def tiOfCl (m : TextInputCl.TIC Nat) : TextInput.TI Nat := ⟨m.content.map (·.headD 0), m.cursor, m.offset, m.paste⟩
+def evToCl : TextInput.Ev Nat → TextInputCl.Ev Nat
+  | .pasteEnd => .pasteEnd
+  | .release => .release
+  | .pasteKey t => .pasteKey t
+  | .key s c a sup t => .key s c a sup t
+  | .other => .other
+
 /-- The model column when a translated body could not be run. -/
 def noBody : String := "unknown-body"
 
@@ -186,7 +202,7 @@ def stepTI (s : St) (op : List String) (impl : String) : St × String :=
   let isW := s.isWord
   if s.dead then (s, s!"dead\t{impl}\t-") else
   let upd (ev : TextInput.Ev Nat) (sop : Op Nat) : St × String :=
-    match TextInput.update isW s.ti ev with
+    match (tiUpdI cl1 (fun c => isW (c.headD 0)) (tiToCl s.ti) (evToCl ev)).map tiOfCl with
     | none => ({ s with dead := true }, s!"panic\t{impl}\t{verdictEq "textinput" impl (tiExpect (VaxisModel.Spec.Editor.apply isW s.ed sop))}")
     | some m' =>
       let ed' := VaxisModel.Spec.Editor.apply isW s.ed sop
@@ -209,7 +225,7 @@ def stepTI (s : St) (op : List String) (impl : String) : St × String :=
   | ["set", t] =>
     match ids? t with
     | some t =>
-      let m' := TextInput.setContent s.ti t
+      let m' := ((tiSetI cl1 (fun c => isW (c.headD 0)) (tiToCl s.ti) t).map tiOfCl).getD (TextInput.setContent s.ti t)
       let ed' := VaxisModel.Spec.Editor.apply isW s.ed (.setContent t)
       ({ s with ti := m', ed := ed' }, s!"{tiCanon m'}\t{impl}\t{verdictEq "textinput" impl (tiExpect ed')}")
     | none => (s, "bad-op\tbad-op\tbad-op")
@@ -418,7 +434,7 @@ def stepTIC (s : St) (op : List String) (impl : String) : St × String :=
   if s.dead then (s, s!"dead\t{impl}\t-") else
   let upd (ev : TextInputCl.Ev Nat) (sop : Op (List Nat)) : St × String :=
     let ed' := VaxisModel.Spec.Editor.applyC cl isW s.edc sop
-    match TextInputCl.update cl isW s.tic ev with
+    match tiUpdI cl isW s.tic ev with
     | none => ({ s with dead := true }, s!"panic\t{impl}\t{verdictEq "textinput" impl (ticExpect ed')}")
     | some m' => ({ s with tic := m', edc := ed' }, s!"{ticCanon m'}{segFlag cl m'.content.flatten}\t{impl}\t{verdictEq "textinput" impl (ticExpect ed')}")
   match op with
@@ -439,7 +455,7 @@ def stepTIC (s : St) (op : List String) (impl : String) : St × String :=
   | ["set", t] =>
     match ids? t with
     | some t =>
-      let m' := TextInputCl.setContent cl s.tic t
+      let m' := (tiSetI cl isW s.tic t).getD (TextInputCl.setContent cl s.tic t)
       let ed' := VaxisModel.Spec.Editor.applyC cl isW s.edc (.setContent (cl t))
       ({ s with tic := m', edc := ed' }, s!"{ticCanon m'}\t{impl}\t{verdictEq "textinput" impl (ticExpect ed')}")
     | none => (s, "bad-op\tbad-op\tbad-op")
